@@ -56,11 +56,18 @@ func genConcCase(t *rapid.T, futurePct, faultPct int, maxClients int) *ConcCase 
 		c.Clients = append(c.Clients, ops)
 	}
 	c.Sched = DrawChoices(t, 8*total+8, "sched")
+	if !c.Free && (EnvStr("VERIF_COMPACTOR", "") == "1" || DrawBool(t, 20, "compactor")) {
+		c.Compactor = true
+		// the compaction's own storage calls need schedule entries too
+		c.Sched = append(c.Sched, DrawChoices(t, 40, "sched2")...)
+	}
 	if faultPct > 0 && DrawBool(t, faultPct, "withFaults") {
+		// (a storage error on the compaction's iterator makes the scanner back off for seconds: no compactor here)
+		c.Compactor = false
 		nf := rapid.IntRange(1, 3).Draw(t, "nfaults")
 		for i := 0; i < nf; i++ {
 			c.Faults = append(c.Faults, ConcFault{
-				Kind: rapid.SampledFrom([]string{"commit", "commit", "iter"}).Draw(t, "fkind"),
+				Kind: rapid.SampledFrom([]string{"commit", "commit", "iter", "unknown-applied", "unknown-lost", "repair-error"}).Draw(t, "fkind"),
 				At:   rapid.IntRange(0, 2*total).Draw(t, "fat"),
 			})
 		}
@@ -121,6 +128,15 @@ func runC01(ci interface{}, st *CaseStats) error {
 	nOK, nFail, _ := concLabels(h, st)
 	if err := h.CheckChain(); err != nil {
 		return fmt.Errorf("%v\nhistory:\n%s", err, h.Describe())
+	}
+	if err := h.CheckWritable(); err != nil {
+		return fmt.Errorf("%v\nhistory:\n%s", err, h.Describe())
+	}
+	if h.CompactErr != nil {
+		return fmt.Errorf("concurrent compaction returned %v", h.CompactErr)
+	}
+	if c.Compactor {
+		st.Label("with-concurrent-compaction")
 	}
 	if nFail > 0 {
 		st.Label("has-failed-condition")
@@ -216,8 +232,16 @@ func runC04(ci interface{}, st *CaseStats) error {
 	if err := h.CollectEvents(); err != nil {
 		return fmt.Errorf("%v\nhistory:\n%s", err, h.Describe())
 	}
-	if err := h.CheckEvents(); err != nil {
-		return fmt.Errorf("%v\nhistory:\n%s", err, h.Describe())
+	if !h.UnknownFaults {
+		// (with unknown outcomes the repaired writes add events of their own; convergence is C09's business)
+		if err := h.CheckEvents(); err != nil {
+			return fmt.Errorf("%v\nhistory:\n%s", err, h.Describe())
+		}
+	} else {
+		st.Label("unknown-outcome-injected")
+		if h.RepairFaulted {
+			st.Label("repair-write-failed-once")
+		}
 	}
 	// at quiescence the read revision has reached the highest revision handed out
 	var maxRev uint64
@@ -271,7 +295,7 @@ func probeC04FutureStall() (bool, string) {
 
 var specC04 = &Spec{
 	ID:   "C04",
-	Rule: "cases as C01 plus requests that are rejected (expected revision above every issued revision: +1 beyond the phase, +2^40, 2^63, 2^64-1 — the values negative etcd revisions are cast to) in 30% of guarded ops, and in 35% of cases 1..3 storage errors injected at generated commit / iterator positions. Safety is sampled at every scheduler step: the read revision must be below the revision of every write parked at its commit gate or between its transaction's reads and the engine commit. Progress at quiescence: a probe write becomes readable, is visible in List at the latest revision and its event reaches a watch opened before the phase; the read revision has reached the highest revision handed out; delivered events = acknowledged writes. Non-trivial = at least one non-success outcome (failed condition, injected error, rejected expectation) and at least one pair of commits finishing out of allocation order; distinct = SHA-1 of the case",
+	Rule: "cases as C01 plus requests that are rejected (expected revision above every issued revision: +1 beyond the phase, +2^40, 2^63, 2^64-1 — the values negative etcd revisions are cast to) in 30% of guarded ops, and in 35% of cases 1..3 storage faults at generated positions: plain errors on commits / iterators, 'outcome unknown' answers (landed or lost) on commits, a definite error on the background repair's rewrite. Safety is sampled at every scheduler step: the read revision must be below the revision of every write parked at its commit gate or between its transaction's reads and the engine commit. Progress at quiescence: a probe write becomes readable, is visible in List at the latest revision and its event reaches a watch opened before the phase; the read revision has reached the highest revision handed out; delivered events = acknowledged writes. Non-trivial = at least one non-success outcome (failed condition, injected error, rejected expectation) and at least one pair of commits finishing out of allocation order; distinct = SHA-1 of the case",
 	Gen:  func(t *rapid.T) interface{} { return genConcCase(t, 30, 35, 4) },
 	New:  func() interface{} { return &ConcCase{} },
 	Run:  runC04,
@@ -283,3 +307,28 @@ var specC04 = &Spec{
 }
 
 func TestC04(t *testing.T) { RunProperty(t, specC04) }
+
+// C07, third mode: compaction scheduled against concurrent writers on the keys being compacted
+var specC07Conc = &Spec{
+	ID:    "C07",
+	Level: "fault_enumeration",
+	Rule:  "concurrent mode: C01's programs (2..4 clients on 1..2 keys whose prelude leaves multi-version keys and deletions) plus a compactor client; the schedule interleaves the compaction's record update, iterator creation and every single delete with the writers' storage calls. Oracle: chain / final-state / raw-store oracle of C01 (superseded versions and deletions may be gone, a live key's newest version and index record may not), then every key must accept one more write with the right expectation. Non-trivial = overlapping writes on one key with at least one success while the compaction ran; distinct = SHA-1 of the case",
+	Gen: func(t *rapid.T) interface{} {
+		c := genConcCase(t, 0, 0, 4)
+		if !c.Free && !c.Compactor {
+			c.Compactor = true
+			c.Sched = append(c.Sched, DrawChoices(t, 40, "sched2")...)
+		}
+		// make sure there is something to compact
+		if len(c.Prelude) < 3 {
+			c.Prelude = append(c.Prelude, WOp{Kind: "create", K: 0}, WOp{Kind: "update", K: 0, Exp: "ok"}, WOp{Kind: "delete", K: 0, Exp: "ok"})
+		}
+		c.PreCompact = false
+		return c
+	},
+	New:     func() interface{} { return &ConcCase{} },
+	Run:     runC01,
+	Engines: []string{EngMem, EngTiKV, EngBadger},
+}
+
+func TestC07Conc(t *testing.T) { RunProperty(t, specC07Conc) }
